@@ -76,6 +76,10 @@ m('revert-F12-subscribe-after-compute', 'C11', 'uncached lookups subscribe to th
    (A, "        # See _uncached_lookup.\n        self._subscribe(*required)\n        order = len(required)\n        result = {}", "        order = len(required)\n        result = {}"),
    (A, "            _lookupAll(components, required, extendors, result, 0, order)\n\n        return tuple(result.items())", "            _lookupAll(components, required, extendors, result, 0, order)\n\n        self._subscribe(*required)\n\n        return tuple(result.items())")])
 
+m('revert-F13-inherited-custom-adapt-flag', 'C14', 'a sub-interface with interface methods of its own loses the _CALL_CUSTOM_ADAPT flag (defect F13)',
+  [(I, "            if (\n                '__adapt__' in needs_custom_class or\n                getattr(cls, '_CALL_CUSTOM_ADAPT', None)\n            ):", "            if '__adapt__' in needs_custom_class:")],
+  ['C14', 'C10'])
+
 def sh(*a, **k):
     return subprocess.run(a, capture_output=True, text=True, **k)
 
